@@ -36,6 +36,12 @@ CHECKS["C17"] = dict(
     note="Images compared at 1e-10 relative; distances concretised with VERIF_SEED. Stack planes are matched by content, not by z label.",
     ref="5 C17")
 
+CHECKS["C14"] = dict(
+    technique="TLA+ spec PriorAlgebra.tla (constructor table over order types + operator algebra with exact rational guesses) model-checked by TLC; every state/path of the dumped graph replayed on real priors; PriorTrace.tla validates recorded statistical observations",
+    text="TLC enumerates every order type of bounds/guess/mean/width over {-inf,-1,0,1,2,+inf} for Uniform, Gaussian, BoundedGaussian (plus ComplexPrior with fixed/free parts) with exact rational guesses, supports and densities, and every operator expression path of depth <= 2 (quick) / 3 (thorough) over two base priors, six numbers incl. 0, 1 and a tiny non-zero, unsupported operands, negation and numpy ufuncs; the model fixes for each step whether the result must be the same object, an exception or a derived prior with an exactly computed guess. All are replayed on real objects, including sampling of every derived prior under a fixed seed for size None/1/n against the same operation applied to base samples. 20k-sample KS tests, support, integrals and lnprob=log prob are recorded as traces and validated by TLC.",
+    note="Half-infinite Uniform is improper by construction (only support/finite constant asserted). Statistical clauses at p=1e-9 thresholds; continuous parameter space sampled with VERIF_SEED.",
+    ref="5 C14")
+
 NOT_APPLICABLE = []
 
 
